@@ -45,7 +45,7 @@ struct Case {
   int hd = 0;           // 1: first stored entry duplicated (second copy has value 31)
   int cs = 7;           // objective coefficient support bitmask; -1: nullptr
   int sense = 0;        // 0 min 1 max
-  int off = 1;          // offset index {0, 1.5}
+  int off = 1;          // offset index {0, 1.5, -7.5}
   int m = 2;            // rows
   unsigned am = 63;     // A support: bit r*n+j
   int rk[2] = {3, 4};   // row kind: 0 free 1 <= 2 >= 3 range 4 ==
@@ -83,7 +83,7 @@ static const char* T_NAME[6] = {"free", "c01", "bin", "int-2..5", "int00", "c00"
 static const double QV[3][3] = {{3, -5, 7}, {11, 13, -17}, {19, -23, 29}};
 static const double QDUP = 31;
 static const double CV[3] = {2.5, -3, 4.25};
-static const double OFFV[2] = {0, 1.5};
+static const double OFFV[3] = {0, 1.5, -7.5};
 static const double AV[2][3] = {{7, -2, 3}, {-4, 5, 9}};
 static const double RK_LB[5] = {-INF, -INF, -3, -3, 2.5};
 static const double RK_UB[5] = {INF, 4, INF, 4, 2.5};
@@ -912,7 +912,7 @@ static void enumerate(bool thorough, const Emit& emit, std::map<std::string, lon
       int k = ex.choose((1 << n) + 1, "cs");            // 0: all, 1: nullptr, then the other subsets
       c.cs = k == 0 ? (1 << n) - 1 : k == 1 ? -1 : k - 2;
       c.sense = ex.choose(2, "sense");
-      c.off = 1 - ex.choose(2, "offset");
+      { static const int OFFK[3] = {1, 0, 2}; c.off = OFFK[ex.choose(3, "offset")]; }
       int na = 1 + (1 << n) + (1 << (2 * n));           // (m, support)
       k = ex.choose(na, "A");
       if (k == 0) { c.m = 2; c.am = (1u << (2 * n)) - 1; }
